@@ -27,6 +27,15 @@ def dy(q):
     return "⟨%d,%d⟩" % (q.numerator, e)
 
 
+def no_branches(what):
+    """The model of a sub-flow is one formula for every state, step and coupling constant: a data-dependent branch taken while tracing
+    means the traced formula only describes one region of the inputs."""
+    if T.CTX.path:
+        op, a, b, out = T.CTX.path[0]
+        raise ValueError("%s branches on its data (%s %s %s was %s at the traced point): the traced formula is not valid for every input"
+                         % (what, T.show(a, 60), op, T.show(b, 60), out))
+
+
 def trace_shear(fn):
     """returns (calls, updates): calls = [(kind, blockA, blockB)], updates = [(block, sign, call)]"""
     T.reset()
@@ -65,6 +74,7 @@ def trace_shear(fn):
 
     f = T.retarget(fn, {"_polynomial_evaluate": pe})
     f(q, d, [_JacMark(j) for j in range(6)], None)
+    no_branches(getattr(fn, "__name__", "shear sub-flow"))
     updates = []
     for b, bn in enumerate("QPXY"):
         rows = []
@@ -118,6 +128,7 @@ def trace_rotation():
 
     f = T.retarget(sy._phi_omega_H_c_update_poly, shim=Shim2())
     f(q, d, om)
+    no_branches("_phi_omega_H_c_update_poly")
     mats = []
     for i in range(3):
         M = []
@@ -291,8 +302,13 @@ def gen(ctx):
     for order in (2, 4, 6, 8):
         T.reset()
         dlt, c = T.Sym.var("delta", 0.1), T.Sym.var("c", 10.0)
-        w = T.retarget(sy._get_tao_omega)(dlt, order, c)
-        txt += E.re_def("tao%d" % order, w, {"delta": 0, "c": 1})
+        try:
+            w = T.retarget(sy._get_tao_omega)(dlt, order, c)
+            no_branches("_get_tao_omega")
+            txt += E.re_def("tao%d" % order, w, {"delta": 0, "c": 1})
+        except Exception as ex:
+            ctx.broken.append(("trace:tao-omega:%d" % order, repr(ex)))
+            ctx.obligations["trace:tao-omega:%d" % order] = False
     txt += E.footer("C16")
     ctx.write_gen("HitenModel.Gen.C16", txt)
 
@@ -343,33 +359,36 @@ def numerics(ctx):
         for order in orders:
             z = np.array([rng.uniform(-0.3, 0.3) for _ in range(6)])
             qe = np.concatenate([z[:3], z[3:], z[:3] + 0.01 * np.array([rng.uniform(-1, 1) for _ in range(3)]), z[3:] + 0.01])
+            # step sizes and coupling constants: the regular regime, a small rotation angle 2*omega*h (weak coupling), a large
+            # step with weak coupling, a backward step, a strong coupling
+            for (h, om) in ((0.05, 5.0), (0.002, 1.0), (0.3, 0.01), (-0.05, 5.0), (0.01, 200.0)):
+                # --- symplecticity of one step in the extended phase space (central differences) ---------------
+                n = 12
+                J = np.zeros((n, n))
+                eps = 1e-6
+                for j in range(n):
+                    e = np.zeros(n)
+                    e[j] = eps
+                    J[:, j] = (step(qe + e, h, order, om) - step(qe - e, h, order, om)) / (2 * eps)
+                I3, Z3 = np.eye(3), np.zeros((3, 3))
+                # ordering (Q,P,X,Y): two-form dQ^dP + dX^dY
+                Om = np.block([[Z3, I3, Z3, Z3], [-I3, Z3, Z3, Z3], [Z3, Z3, Z3, I3], [Z3, Z3, -I3, Z3]])
+                res = float(np.abs(J.T @ Om @ J - Om).max())
+                ctx.case((hname, order, "symplectic", h, om), nontrivial=(hname != "separable" or order > 2), kind="symplecticity",
+                         sample={"H": hname, "order": order, "h": h, "omega": om, "residual": res})
+                if not res <= 1e-7:
+                    ctx.violation("not-symplectic:%d" % order, "one step of order %d is not a symplectic map of the extended phase space (residual %g)" % (order, res),
+                                  {"hamiltonian": {str(k): v for k, v in hd.items()}, "order": order, "state_ext": qe.tolist(), "h": h, "omega": om, "residual": res})
+                    return
+                # --- reversibility ------------------------------------------------------------------------------
+                back = step(step(qe, h, order, om), -h, order, om)
+                rt = float(np.abs(back - qe).max())
+                ctx.case((hname, order, "reverse", h, om), nontrivial=True, kind="round-trip")
+                if not rt <= 1e-12:
+                    ctx.violation("not-reversible:%d" % order, "step(-h) after step(h) does not restore the state (error %g)" % rt,
+                                  {"hamiltonian": {str(k): v for k, v in hd.items()}, "order": order, "state_ext": qe.tolist(), "h": h, "omega": om, "error": rt})
+                    return
             h, om = 0.05, 5.0
-            # --- symplecticity of one step in the extended phase space (central differences) ---------------
-            n = 12
-            J = np.zeros((n, n))
-            eps = 1e-6
-            for j in range(n):
-                e = np.zeros(n)
-                e[j] = eps
-                J[:, j] = (step(qe + e, h, order, om) - step(qe - e, h, order, om)) / (2 * eps)
-            I3, Z3 = np.eye(3), np.zeros((3, 3))
-            # ordering (Q,P,X,Y): two-form dQ^dP + dX^dY
-            Om = np.block([[Z3, I3, Z3, Z3], [-I3, Z3, Z3, Z3], [Z3, Z3, Z3, I3], [Z3, Z3, -I3, Z3]])
-            res = float(np.abs(J.T @ Om @ J - Om).max())
-            ctx.case((hname, order, "symplectic"), nontrivial=(hname != "separable" or order > 2), kind="symplecticity",
-                     sample={"H": hname, "order": order, "residual": res})
-            if not res <= 1e-7:
-                ctx.violation("not-symplectic:%d" % order, "one step of order %d is not a symplectic map of the extended phase space (residual %g)" % (order, res),
-                              {"hamiltonian": {str(k): v for k, v in hd.items()}, "order": order, "state_ext": qe.tolist(), "h": h, "omega": om, "residual": res})
-                return
-            # --- reversibility ------------------------------------------------------------------------------
-            back = step(step(qe, h, order, om), -h, order, om)
-            rt = float(np.abs(back - qe).max())
-            ctx.case((hname, order, "reverse"), nontrivial=True, kind="round-trip")
-            if not rt <= 1e-12:
-                ctx.violation("not-reversible:%d" % order, "step(-h) after step(h) does not restore the state (error %g)" % rt,
-                              {"hamiltonian": {str(k): v for k, v in hd.items()}, "order": order, "state_ext": qe.tolist(), "h": h, "omega": om, "error": rt})
-                return
             # --- convergence order at fixed omega ---------------------------------------------------------------
             if order <= 6:
                 Tend = 0.4
